@@ -24,7 +24,8 @@ import HexVerif.Lemmas.AsmJunk
   string counters) and hexasm's `InstrLabel::labelValue` (set by the model's `resolve` before use).
   Those are covered by the perturbation matrix of `./check C11` on the real code.
 -/
-namespace Hex.Xcmp
+namespace Hex.Properties.C11
+open Hex Hex.Xcmp
 
 theorem C11_tokens_junk (j1 j2 : Word) (src : List Byte) : tokensOutputJ j1 src = tokensOutputJ j2 src :=
   tokensOutputJ_indep j1 j2 src
@@ -49,16 +50,13 @@ example : (match lexAllJ 0xDEAD#32 (bytesOf "proc main() is 0(7)") with
 example : tokensOutputJ 0xDEAD#32 (bytesOf "proc main() is 0(7)") = tokensOutputJ 0#32 (bytesOf "proc main() is 0(7)") :=
   C11_tokens_junk _ _ _
 
-end Hex.Xcmp
-
-namespace Hex.Asm
 
 /-- hexasm: the outcome of the whole assembler model (image and directive list, diagnostic, or the
     model's iteration bound) does not depend on the junk in the uninitialised `Lexer::value`: the token
     sequences differ at most in the `value` field of tokens that are not NUMBER, and the parser reads
     that field only in `parseInteger`, under `tok = NUMBER`. -/
-theorem C11_asm_junk (j1 j2 : Nat) (src : List Byte) : runJ j1 src = runJ j2 src := runJ_indep j1 j2 src
+theorem C11_asm_junk (j1 j2 : Nat) (src : List Byte) : Asm.runJ j1 src = Asm.runJ j2 src := Asm.runJ_indep j1 j2 src
 
-theorem C11_asm_run_is_runJ (src : List Byte) : Asm.run src = runJ 0 src := run_eq_runJ src
+theorem C11_asm_run_is_runJ (src : List Byte) : Asm.run src = Asm.runJ 0 src := Asm.run_eq_runJ src
 
-end Hex.Asm
+end Hex.Properties.C11
